@@ -32,7 +32,7 @@ class C09(core.Check):
         'double:cli+cli', 'double:cli+define', 'double:define+define', 'expands-to:register', 'expands-to:label',
         'expands-to:expression', 'source:isa', 'source:cli', 'source:define', 'unparenthesised-expression-value', 'double:identical-text',
         'cycle:replacement-is-the-bare-name-itself', 'quoted-value-used', 'quoted-value-with-blank-run', 'valueless-symbol-used', 'define-while-muted', 'same-line-text-repeated', 'quoted-value-from:isa', 'quoted-value-from:cli', 'quoted-value-from:define',
-        'symbol-inside-a-string', 'symbol-inside-a-string:replaced']}
+        'symbol-inside-a-string', 'symbol-inside-a-string:replaced', 'config-symbol-value-written-as-a-number']}
 
     def build(self, rng, mode, quoted=None, muted=None, nil=None, in_string=None):
         tags = set()
@@ -323,7 +323,13 @@ class C09(core.Check):
             kind = 'ACCEPT'
         isa = gen_prog.layout_isa(16, endian='big')
         if isa_syms:
-            isa.setdefault('predefined', {})['symbols'] = [{'name': n, 'value': t} if t != '' else {'name': n} for n, t in isa_syms]
+            # a replacement that reads as a decimal number is also written as a number in the configuration file (value: 5)
+            def _cfgval(t_):
+                if re.fullmatch(r'[1-9]\d{0,5}|0', t_) and (len(t_) + sum(map(ord, t_))) % 2 == 0:
+                    tags.add('config-symbol-value-written-as-a-number')
+                    return int(t_)
+                return t_
+            isa.setdefault('predefined', {})['symbols'] = [{'name': n, 'value': _cfgval(t)} if t != '' else {'name': n} for n, t in isa_syms]
         fn, text = isamod.render_isa(isa, 'yaml' if rng.random() < 0.1 else 'json')
         argv = ['compile', '-c', fn, 'p.asm', '-o', 'out.bin']
         for n, t in cli:
